@@ -266,3 +266,35 @@ func VerifC16Labels() {
 	vrtAssert("label-reference-earlier-file", l["R"] == va)
 	vrtAssert("label-reference-latest-earlier-file", l["R3"] == va)
 }
+
+// VerifC16Valueless: several `environment` keys written without a value, each taking its own value of the project
+// environment (or staying without one), in both syntaxes, with normalization on or off, under three map orders.
+func VerifC16Valueless() {
+	v := "x" + vrtString("v", vrtParam("VL", 1), "ab")
+	env := types.Mapping{"K1": "one" + v, "K3": "three", "K5": ""}
+	var envAttr any
+	if vrtChoice("syntax", 2) == 0 {
+		envAttr = map[string]any{"K1": nil, "K2": nil, "K3": nil, "K4": "lit", "K5": nil}
+	} else {
+		envAttr = []any{"K1", "K2", "K3", "K4=lit", "K5"}
+	}
+	skipNorm := vrtChoice("skipNormalization", 2) == 1
+	doc := map[string]any{"services": map[string]any{"s": map[string]any{"image": "i", "environment": envAttr},
+		"t": map[string]any{"image": "i", "environment": map[string]any{"K3": nil, "K1": "own"}}}}
+	vrtMapOrder([]int{0, 3, 4}[vrtChoice("maporder", 3)])
+	p, err := tcLoadProject(env, func(o *Options) { o.SkipNormalization = skipNorm }, doc)
+	vrtMapOrder(0)
+	vrtObserve("err", err != nil)
+	vrtAssert("loads", err == nil)
+	if err != nil {
+		return
+	}
+	e := p.Services["s"].Environment
+	is := func(k, want string) bool { return e[k] != nil && *e[k] == want }
+	vrtAssert("valueless-key-takes-its-own-project-value", is("K1", "one"+v) && is("K3", "three"))
+	vrtAssert("valueless-key-defined-empty-in-the-project", is("K5", ""))
+	vrtAssert("valueless-key-absent-from-the-project-stays-valueless", e["K2"] == nil)
+	vrtAssert("valued-key-kept", is("K4", "lit"))
+	et := p.Services["t"].Environment
+	vrtAssert("other-service-resolved-on-its-own", et["K3"] != nil && *et["K3"] == "three" && et["K1"] != nil && *et["K1"] == "own")
+}
